@@ -42,6 +42,10 @@ var monthNames = []string{"Jan", "Feb", "Mar", "Apr", "May", "Jun", "Jul", "Aug"
 var dayNames = []string{"Sun", "Mon", "Tue", "Wed", "Thu", "Fri", "Sat"}
 
 func genChangelog(t *rt.Tape, tier string) ([]*clEntry, []byte) {
+	return genChangelogR(t, tier, rt.NewRun(rt.NewTape(0)))
+}
+
+func genChangelogR(t *rt.Tape, tier string, r *rt.Run) ([]*clEntry, []byte) {
 	maxEntries := 4
 	if tier == "thorough" {
 		maxEntries = 8
@@ -72,7 +76,14 @@ func genChangelog(t *rt.Tape, tier string) ([]*clEntry, []byte) {
 		var body strings.Builder
 		body.WriteString("\n")
 		for j, nl := 0, t.Range(1, 5, "cl.nbody"); j < nl; j++ {
-			switch t.Weighted([]int{5, 2, 1, 1, 1}, "cl.bodykind") {
+			switch t.Weighted([]int{50, 20, 10, 10, 10, 2, 3}, "cl.bodykind") {
+			case 5: // a change line longer than any default bufio buffer
+				w := genWords(t, 2, 6, "cl.w")
+				body.WriteString("  * " + strings.Repeat(w+" ", 1+(4200+t.Draw(3000, "cl.longlen"))/(len(w)+1)) + "end\n")
+				r.Probe("change-line-longer-than-4096-bytes")
+			case 6: // a change line that ends in CR LF (kept verbatim)
+				body.WriteString("  * " + genWords(t, 1, 4, "cl.w") + "\r\n")
+				r.Probe("change-line-with-carriage-return")
 			case 0:
 				body.WriteString("  * " + genWords(t, 1, 6, "cl.w") + "\n")
 			case 1:
@@ -235,7 +246,7 @@ func clMalform(doc []byte, e *clEntry, kind string) []byte {
 
 func runC17(r *rt.Run, tier string) {
 	t := r.T
-	entries, doc := genChangelog(t, tier)
+	entries, doc := genChangelogR(t, tier, r)
 	faulty := t.Bool(1, 2, "config.faulty")
 	api := "Parse"
 	if t.Bool(1, 3, "cl.api") {
@@ -425,5 +436,5 @@ func init() {
 		},
 		Assumptions: []string{"reference renderer and entry model written from deb-changelog(5), independent of the library", "time.Time comparison trusts the Go standard library"},
 	})
-	propProbes["C17"] = []string{"no-final-newline", "truncate-on-entry-boundary", "truncate-inside-entry", "truncate-only-final-newline-missing"}
+	propProbes["C17"] = []string{"change-line-longer-than-4096-bytes", "change-line-with-carriage-return", "no-final-newline", "truncate-on-entry-boundary", "truncate-inside-entry", "truncate-only-final-newline-missing"}
 }
